@@ -299,3 +299,35 @@ PROPS["C16"] = {
                   "rendered diagnostics.",
     "level_note": "Order leaks that need a specific hash seed can be missed with 8-24 processes; the probe shows how many orders were seen.",
 }
+
+PROPS["C14"] = {
+    "shards": 16,
+    "quick_budget_s": 60,
+    "thorough_budget_s": 900,
+    "stuck_s": 45,
+    "alone_timeout_s": 60,
+    "floors": {"any": {"parse:ok": 200, "parse:error": 2000, "from_bytes:ok": 100, "from_bytes:error": 1000,
+                       "input:random-text": 100, "input:generated-doc-mutant": 1000, "input:truncation": 1000,
+                       "input:fixture-mutant": 100, "input:package-mutant": 1000, "input:random-bytes": 100,
+                       "input:shaped-wat-mutant": 100, "input:document-package-pairing": 100, "shaped-wat": 10}},
+    "rule": "Texts: random token/unicode soup; grammar-generated documents with 1-3 character-level edits (delete, insert "
+            "punctuation / multi-byte / bidi / NUL characters, replace, swap, duplicate a chunk, truncate) and truncation at every "
+            "character boundary of small documents; character-level mutants of the repository's fixture documents; 8 kinds of "
+            "deep nesting (parentheses, list<>, tuple<>, option<result<>>, nested `new`, nested block comments, access chains) at "
+            "depths 10..100000 capped at 1 MiB of source. Packages: generated components and 6 byte-level mutants each "
+            "(truncate, bit flip, byte replace, delete, insert, splice, extreme byte), random bytes with and without a "
+            "component/module header, 14 hand-shaped WAT components/modules (core module types with tables/memories/globals/tags, "
+            "memory64, shared, GC and shared heap types, value/instance/component imports, resources, async/stream/future) and "
+            "their mutants. Pairings: fixture documents resolved with their packages intact, one missing, one corrupted, two "
+            "swapped, or one replaced by a shaped component, then encoded. Every call (Document::parse, wac_resolver::packages, "
+            "Document::resolve, Package::from_bytes, Resolution::encode) is wrapped: panic, abnormal exit (attributed by the "
+            "supervisor to the case marked before execution), reproducible hang (> 45 s), a span outside the source or off a "
+            "char boundary in a tree or diagnostic, and a diagnostic that does not render are refuting events. Non-trivial: "
+            "every random case (distinct case seeds).",
+    "assumptions": ["'never loops forever' is decided as 'finished within 45 s, twice' for inputs <= 1 MiB (bounded progress, not termination)",
+                    "workers run with the default 8 MiB main-thread stack; stack exhaustion is reported with the nesting kind and depth"],
+    "technique": "runtime monitor: supervised execution (panic capture, crash/hang attribution) + span and rendering oracle over hostile inputs; sanitizer lanes in the thorough tier",
+    "level_text": "Robustness is decided by executing the four entry points on tens of thousands of malformed inputs under a supervisor "
+                  "that sees panics, aborts, signals and hangs, with every returned location checked against the source.",
+    "level_note": "Coverage is of the generated corpus only; a clean run is not a memory-safety claim (wac itself contains no unsafe code).",
+}
